@@ -80,8 +80,34 @@ def check_case(case, ctx=None):
         _same(f"{name}:bwd", r[3], r_req[3].constraint, case)
     for name, r in (("Trace.edit", r_ed), ("gen_fn.edit", r_gfe)):
         _same(f"{name}:trace", r[0].get_choices(), r_req[0].get_choices(), case)
+        _same(f"{name}:args", r[0].get_args(), r_req[0].get_args(), case)
         _same(f"{name}:weight", r[1], r_req[1], case)
+        _same(f"{name}:retdiff", r[2], r_req[2], case)
         _same(f"{name}:bwd", r[3], r_req[3], case)
+    for name, r in (("gen_fn.update", r_gf), ("Trace.update", r_tr)):
+        _same(f"{name}:retdiff", r[2], r_req[2], case)
+    # the same for requests with a no-change fast path (EmptyRequest, Regenerate of nothing)
+    e_req = EmptyRequest().edit(k2, ti, ad)
+    e_tr = ti.edit(k2, EmptyRequest(), ad)
+    _same("Trace.edit(EmptyRequest):trace", e_tr[0].get_choices(), e_req[0].get_choices(), case)
+    _same("Trace.edit(EmptyRequest):args", e_tr[0].get_args(), e_req[0].get_args(), case)
+    _same("Trace.edit(EmptyRequest):score", e_tr[0].get_score(), e_req[0].get_score(), case)
+    _same("Trace.edit(EmptyRequest):weight", e_tr[1], e_req[1], case)
+    if all(k_.startswith("dist:") or k_ in REGEN_KINDS for k_ in gfi_strat.node_kinds(node)):
+        from genjax import Selection
+        g_req = Regenerate(Selection.none()).edit(k2, ti, ad)
+        g_tr = ti.edit(k2, Regenerate(Selection.none()), ad)
+        g_gf = gf.edit(k2, ti, Regenerate(Selection.none()), ad)
+        for nm, r in (("Trace.edit", g_tr), ("gen_fn.edit", g_gf)):
+            _same(f"{nm}(Regenerate none):score", r[0].get_score(), g_req[0].get_score(), case)
+            _same(f"{nm}(Regenerate none):weight", r[1], g_req[1], case)
+        # and against the reference model: nothing selected => old choices re-scored at the new arguments
+        nnew_ = gfi.to_np_args(sg, new_json)
+        run_g, _fr = gfi.check_trace_against_model(g_req[0], node, nnew_, dict(run_i.assignment()), "regenerate-none:", case, Violation, allow_fresh=False)
+        exp_g = run_g.score() - run_i.score()
+        if not gfi.close(gfi.fval(g_req[1]), exp_g, gfi.score_tol(run_g, len(run_i.terms))):
+            raise Violation("regenerate-none:weight", f"weight {gfi.fval(g_req[1])!r} != new score - old score {exp_g!r}", case)
+        classes.append("regenerate-none")
     if case["newargs"] is None:
         r_def = ti.update(k2, uchm)  # default argdiffs = no change
         _same("Trace.update(default argdiffs):trace", r_def[0].get_choices(), r_req[0].get_choices(), case)
